@@ -366,7 +366,17 @@ class Interp(MiniEval):
             out = {}
             for k, v in zip(e.keys, e.values):
                 if k is None:
-                    out.update(self.ev(v))
+                    m = self.ev(v)
+                    if isinstance(m, Obj):
+                        # ** of a package mapping: through its keys() and __getitem__
+                        ks = self.getattr(m, 'keys')()
+                        gi = self.dunder(m, '__getitem__')
+                        if gi is None:
+                            raise Unsupported('** of an object without __getitem__')
+                        for kk in list(ks):
+                            out[kk] = self.apply(gi, [kk], {})
+                    else:
+                        out.update(m)
                 else:
                     out[self.ev(k)] = self.ev(v)
             return out
@@ -884,6 +894,25 @@ class Interp(MiniEval):
                 m, fn = self.src.func(init)
                 self.run_function(m, fn, init.split('.')[1], args, kwargs, obj)
             object.__setattr__(obj, '_constructed', True)     # every field comes from the interpreted constructor
+            mro_ = self.src.mro(callee.qual)
+            if any(c_ in ('css_types.Immutable', 'css_types.ImmutableDict') for c_ in mro_) and self.src.find_method(callee.qual, '__eq__'):
+                # the value classes of the compiled structure define == and hash over their contents: model that, so that a dict
+                # or set keyed by them in the interpreted program behaves as at run time
+                def vkey(v_):
+                    if isinstance(v_, Obj):
+                        k_ = object.__getattribute__(v_, '_fields').get('__eq_key__')
+                        return k_ if k_ is not None else ('id', id(v_))
+                    if isinstance(v_, (tuple, list)):
+                        return tuple(vkey(x_) for x_ in v_)
+                    if isinstance(v_, dict):
+                        return tuple(sorted((repr(a_), vkey(b_)) for a_, b_ in v_.items()))
+                    try:
+                        hash(v_)
+                        return v_
+                    except TypeError:
+                        return ('repr', repr(v_))
+                fields_ = object.__getattribute__(obj, '_fields')
+                fields_['__eq_key__'] = (callee.qual,) + tuple((k_, vkey(v_)) for k_, v_ in sorted(fields_.items()) if k_ not in ('_hash', '__eq_key__'))
             return obj
         if isinstance(callee, Partial):
             kw = dict(callee.kwargs)
